@@ -1324,7 +1324,12 @@ def split_host_and_port(netloc: str) -> tuple[str, int | None]:
     match = _netloc_re.match(netloc)
     if match:
         host = match.group(1)
-        port: int | None = int(match.group(2))
+        try:
+            port: int | None = int(match.group(2))
+        except ValueError:
+            # int() refuses digit strings beyond sys.get_int_max_str_digits()
+            host = netloc
+            port = None
     else:
         host = netloc
         port = None
